@@ -490,6 +490,11 @@ class C16Storage:
         self.crash_in = None
         self.in_op = False
         self.scans = 0
+        self.log_offsets = {}
+        datadir = os.environ.get('BCL_DATA_DIR', '')
+        for fn in os.listdir(datadir) if datadir and os.path.isdir(datadir) else []:
+            if fn.startswith('bitcoinlib.log'):
+                self.log_offsets[fn] = os.path.getsize(os.path.join(datadir, fn))   # earlier runs of this worker
         world.commit_hook = self.commit_hook
         self.make_wallet()
 
@@ -571,6 +576,20 @@ class C16Storage:
                 self.w.violation('plaintext_private_material_in_database',
                                  {'file': 'db' + suffix, 'encoding': hit.split('/')[-1].split(':')[0]},
                                  '%s: %s holds %s in plaintext (%d bytes scanned)' % (where, os.path.basename(p), hit, len(blob)))
+        # the library's own log file lives in the same data directory (default configuration: WARNING and above)
+        datadir = os.environ.get('BCL_DATA_DIR', '')
+        for fn in sorted(os.listdir(datadir)) if datadir and os.path.isdir(datadir) else []:
+            if not fn.startswith('bitcoinlib.log'):
+                continue
+            with open(os.path.join(datadir, fn), 'rb') as f:
+                f.seek(self.log_offsets.get(fn, 0))
+                blob = f.read()
+                self.log_offsets[fn] = f.tell()
+            self.w.probe('log_scanned')
+            hit = self.reg.search_bytes(blob)
+            if hit:
+                self.w.violation('plaintext_private_material_in_log', {'encoding': hit.split('/')[-1].split(':')[0]},
+                                 '%s: %s holds %s in plaintext' % (where, fn, hit))
 
     def call(self, label, fn):
         self.in_op = True
@@ -596,7 +615,7 @@ class C16Storage:
     def step(self):
         ch, w = self.ch, self.w
         kind = ch.weighted('op', [('new_key', 5), ('fund', 3), ('update', 3), ('send', 4), ('reopen', 3), ('arm_crash', 2),
-                                  ('scan', 3), ('new_account', 1)])
+                                  ('scan', 3), ('new_account', 1), ('import_key', 2)])
         wl = self.wl
         if kind == 'new_key':
             how = ch.pick('how', ['new_key', 'new_key_change', 'get_key', 'get_keys'])
@@ -640,6 +659,16 @@ class C16Storage:
         elif kind == 'arm_crash':
             self.crash_in = ch.int('crash_j', 1, 10)
             w.op('arm_crash', j=self.crash_in)
+        elif kind == 'import_key':
+            # an unrelated single private key, possibly one that was imported before
+            if wl.scheme == 'bip32' and not wl.multisig:
+                j = ch.index('imp_j', 3)
+                priv = int.from_bytes(rhashes.sha256(b'c16 imported key %d' % j), 'big') % (rec.N - 1) + 1
+                self.reg.add_priv(priv, 'imported%d' % j)
+                wif = rcodec.wif_encode(priv, True, rcodec.NETWORKS[self.network]['wif'])
+                w.op('import_key', j=j)
+                self.call('import_key', lambda: wl.import_key(wif))
+                self.scan('after import_key')
         elif kind == 'new_account':
             if wl.scheme == 'bip32' and not wl.multisig:
                 w.op('new_account')
